@@ -2,35 +2,29 @@ package main
 
 import (
 	"fmt"
-	"strings"
 
 	"verifsim/gen"
-	"verifsim/model"
 )
 
 func main() {
-	n, pair, untied := 0, 0, 0
-	for seed := uint64(1); seed < 3000; seed++ {
-		p := gen.Generate(seed, fmt.Sprintf("P%d", seed), gen.FamSubst)
+	n, mode := 0, 0
+	for seed := uint64(1); seed < 2000; seed++ {
+		p := gen.Generate(seed, fmt.Sprintf("P%d", seed), gen.FamConfig)
 		n++
-		has := false
-		for _, i := range p.Instances {
-			if strings.HasPrefix(i.Alias, "Aq") {
-				has = true
+		cnt := 0
+		for _, t := range p.Types {
+			for _, cf := range t.Config {
+				if cf.Menu == "prefixNest" {
+					cnt++
+				}
 			}
 		}
-		if !has {
-			continue
-		}
-		pair++
-		w := model.NewWorld(p, nil)
-		out := w.StartOutcome()
-		if !out.HasTied {
-			untied++
-			if untied <= 2 {
+		if cnt >= 2 {
+			mode++
+			if mode <= 2 {
 				fmt.Println(p.JSON())
 			}
 		}
 	}
-	fmt.Println(n, pair, untied)
+	fmt.Println(n, mode)
 }
